@@ -291,6 +291,7 @@ func (g *FnGen) havocLoc(env *Env, loc Expr) {
 		j := "hv!j"
 		g.assume(fmt.Sprintf("(forall ((%s %s)) (! (=> (or %s %s) (= (select %s %s) (select (select %s %s) %s))) :pattern ((select %s %s))))",
 			j, g.idx(), g.slt(j, g.add(soff(s.T), lo)), g.sle(g.add(soff(s.T), hi), j), row, j, h, sref(s.T), j, row, j))
+		g.loopFrameCheck(fam, sref(s.T), token.NoPos)
 		g.heapSet(g.cur, fam, fmt.Sprintf("(store %s %s %s)", h, sref(s.T), row))
 	case *EIndex:
 		g.havocLoc(env, &ESlice{X: l.X, Lo: l.I, Hi: &EBin{Op: "+", X: l.I, Y: &EInt{V: bigOne}}})
@@ -309,6 +310,7 @@ func (g *FnGen) havocLoc(env *Env, loc Expr) {
 				fam, sort, ft := g.fieldFam(p.Elem(), i)
 				h := g.heapGet(g.cur, fam, sort)
 				nv := g.unknownOf("hv", ft)
+				g.loopFrameCheck(fam, x.T, token.NoPos)
 				g.heapSet(g.cur, fam, fmt.Sprintf("(store %s %s %s)", h, x.T, nv.T))
 				if l.Name != "$all" {
 					return
@@ -337,6 +339,7 @@ func (g *FnGen) havocLoc(env *Env, loc Expr) {
 					// element sort of the outer array
 					inner := strings.TrimSuffix(strings.TrimPrefix(fs[1], "(Array Int "), ")")
 					row := g.fresh("row", inner)
+					g.loopFrameCheck(fs[0], v.T, token.NoPos)
 					g.heapSet(g.cur, fs[0], fmt.Sprintf("(store %s %s %s)", h, v.T, row))
 				}
 				return
@@ -424,6 +427,7 @@ func (g *FnGen) builtin(instr ssa.Instruction, b *ssa.Builtin, c *ssa.CallCommon
 		hp := g.heapGet(g.cur, pf, ps)
 		hl := g.heapGet(g.cur, lf, ls)
 		g.frameCheckFam("map", m.T, instr.Pos())
+		g.loopFrameCheck(pf, m.T, instr.Pos())
 		// delete on nil map is a no-op
 		g.heapSet(g.cur, lf, fmt.Sprintf("(ite (= %s 0) %s (store %s %s (ite (select (select %s %s) %s) %s (select %s %s))))", m.T, hl, hl, m.T, hp, m.T, k.T, g.sub(fmt.Sprintf("(select %s %s)", hl, m.T), g.ilit64(1)), hl, m.T))
 		g.heapSet(g.cur, pf, fmt.Sprintf("(ite (= %s 0) %s (store %s %s (store (select %s %s) %s false)))", m.T, hp, hp, m.T, hp, m.T, k.T))
@@ -498,6 +502,10 @@ func (g *FnGen) appendBuiltin(v ssa.Value, c *ssa.CallCommon) Val {
 	base := soff(r.T)
 	g.assume(fmt.Sprintf("(forall ((%s %s)) (! (=> (and %s %s) (= (select %s %s) (select (select %s %s) %s))) :pattern ((select %s %s))))",
 		k, idx, g.sle(base, k), g.slt(k, g.add(base, slen(s.T))), row, k, h, sref(s.T), g.add(g.sub(k, base), soff(s.T)), row, k))
+	// the same fact triggered from reads of the old array (m = index into s's backing array)
+	oldrow := fmt.Sprintf("(select %s %s)", h, sref(s.T))
+	g.assume(fmt.Sprintf("(forall ((%s %s)) (! (=> (and %s %s) (= (select %s %s) (select %s %s))) :pattern ((select %s %s))))",
+		k, idx, g.sle(soff(s.T), k), g.slt(k, g.add(soff(s.T), slen(s.T))), row, g.add(g.sub(k, soff(s.T)), base), oldrow, k, oldrow, k))
 	// appended elements
 	abase := g.add(base, slen(s.T))
 	if constN >= 0 && constN <= unrollAppend {
@@ -508,10 +516,17 @@ func (g *FnGen) appendBuiltin(v ssa.Value, c *ssa.CallCommon) Val {
 	} else {
 		g.assume(fmt.Sprintf("(forall ((%s %s)) (! (=> (and %s %s) (= (select %s %s) %s)) :pattern ((select %s %s))))",
 			k, idx, g.sle(abase, k), g.slt(k, g.add(abase, n)), row, k, readT(g.sub(k, abase)), row, k))
+		if !tIsStr {
+			// triggered from reads of the appended slice (m = index into t's backing array)
+			trow := fmt.Sprintf("(select %s %s)", h, sref(t.T))
+			g.assume(fmt.Sprintf("(forall ((%s %s)) (! (=> (and %s %s) (= (select %s %s) (select %s %s))) :pattern ((select %s %s))))",
+				k, idx, g.sle(soff(t.T), k), g.slt(k, g.add(soff(t.T), n)), row, g.add(g.sub(k, soff(t.T)), abase), trow, k, trow, k))
+		}
 	}
 	// in place: everything outside the appended window is unchanged
 	g.assume(fmt.Sprintf("(=> %s (forall ((%s %s)) (! (=> (or %s %s) (= (select %s %s) (select (select %s %s) %s))) :pattern ((select %s %s)))))",
 		inplace, k, idx, g.slt(k, g.add(soff(s.T), slen(s.T))), g.sle(g.add(soff(s.T), newlen), k), row, k, h, sref(s.T), k, row, k))
+	g.loopFrameCheck(fam, sref(r.T), token.NoPos)
 	g.heapSet(g.cur, fam, fmt.Sprintf("(store %s %s %s)", h, sref(r.T), row))
 	if g.fc.HasAssigns {
 		g.note("append in place writes beyond len(s) of the backing array; not checked against the assigns clause")
@@ -571,6 +586,7 @@ func (g *FnGen) copyBuiltin(v ssa.Value, c *ssa.CallCommon, pos token.Pos) Val {
 		k, idx, g.sle(soff(d.T), k), g.slt(k, g.add(soff(d.T), n)), row, k, src, row, k))
 	g.assume(fmt.Sprintf("(forall ((%s %s)) (! (=> (or %s %s) (= (select %s %s) (select (select %s %s) %s))) :pattern ((select %s %s))))",
 		k, idx, g.slt(k, soff(d.T)), g.sle(g.add(soff(d.T), n), k), row, k, h, sref(d.T), k, row, k))
+	g.loopFrameCheck(fam, sref(d.T), pos)
 	g.heapSet(g.cur, fam, fmt.Sprintf("(store %s %s %s)", h, sref(d.T), row))
 	r := Val{T: n, S: g.idx(), GT: types.Typ[types.Int]}
 	if v != nil {
